@@ -133,6 +133,9 @@ def cases(rng, tier):
         yield "hist %s %s" % (wspec(rng), ";".join(
             ["exp:%d:0:%d" % (a, rng.choice([2, 3, 5])), "exp:%d:0:%d" % (rng.choice([0, 1]), rng.choice([0, 1])),
              "rep:0:0:1", "exp:0:0:1", "exp:1:0:2", "exp:0:0:0"] + gen_history(rng, 5, False))), "history-export-file"
+        # reports for several accounts in a row, the default account before, between and after the others
+        accts = [0, rng.choice([1, 7, 2 ** 31 - 1]), 0, rng.choice([2, 100]), rng.choice([1, 7]), 0]
+        yield "hist %s %s" % (wspec(rng), ";".join(["rep:%d:0:1" % a_ for a_ in accts] + ["xk:0", "was"])), "history-account-sequence"
     yield from _collision_cases(rng, tier)
 
 
